@@ -151,7 +151,8 @@ def classify(script, i, v, fw):
     if clause in ("endpoint-args", "progress-unasked") and rpf in (["f"], ["0"]):
         # the caller did not ask (detail explicitly false / absent), the endpoint got a progress callable / used it
         return "%s:receive_progress-%s" % (clause, "false" if rpf == ["f"] else "absent")
-    if clause == "no-reply" and faults[:2] == ["big", "big"]:
+    if clause == "no-reply" and faults[:1] == ["big"] and (faults[:2] == ["big", "big"] or "/" in fw):
+        # on a real transport the second refusal can only be the fallback ERROR being oversize itself
         return "no-reply:oversize-result:fallback-error-repeats-the-result-and-exceeds-the-limit-too"
     if clause == "no-reply" and faults[:1] == ["other"] and "rs" in fw and "twisted" in fw:
         return "no-reply:unserializable-result:twisted-rawsocket-send-raises-the-serializer's-own-exception"
@@ -366,7 +367,7 @@ def real_cases(rng, kind, lim, table, quick=True):
         if c == "ser":
             return "ser.ok"            # the fallback names the value by its repr: small and serializable
         if c == "big":
-            return "big.big"           # the fallback ERROR carries the repr of the oversize value: oversize again
+            return "big.ok"            # the fallback ERROR names the procedure and the limit, not the value: it fits
         return "other"
 
     def model_ret(spec):
